@@ -144,6 +144,16 @@ int main(int argc, char** argv) {
             emit("sorted", sn, ok, POLYSEED_LANG_SIZE - 1, d);
         }
 
+        /* ---- T.sorted_pairs: every pair in list order, not only neighbours (no appeal to transitivity; lemma L.cmp.order) ---- */
+        if (l->is_sorted) {
+            int ok = 1; long n = 0; char d[600] = "for all i < j: cmp(words[i], words[j]) < 0 under the language's comparer";
+            for (int i = 0; i < POLYSEED_LANG_SIZE && ok; ++i) for (int j = i + 1; j < POLYSEED_LANG_SIZE; ++j) {
+                n++;
+                if (!(cmp(&l->words[i], &l->words[j]) < 0)) { ok = 0; snprintf(d, sizeof d, "words[%d]=%s is not below words[%d]=%s", i, l->words[i], j, l->words[j]); break; }
+            }
+            emit("sorted_pairs", sn, ok, n, d);
+        }
+
         /* ---- T2 distinct, found at own index ---------------------------------------------- */
         {
             int ok = 1; long n = 0; char d[600] = "all pairs distinct under the comparer; every word found at its own index through the real search";
